@@ -8,7 +8,7 @@ repository or a mixture of old and new shards.  A run that reports success has i
 Quantifier: every filesystem mutation point of a build that replaces an existing index with one that has more, fewer
 or the same number of shards, including delta builds that rewrite metadata sidecars; plus failures of individual renames.
 -/
-import ZoektModel.C12.NoTrunc
+import ZoektModel.C12.Present
 namespace ZoektModel.C12
 
 /-! ## old-or-new at every crash point: true exactly for the single-rename scenarios -/
@@ -107,6 +107,16 @@ theorem C12_no_truncated (s : Scn) (ro : List (Path × Path)) (hro : ro.Perm (ar
     (dord : List Path) (fails : Nat → Bool) (k : Nat) :
     NoTrunc (crashDir s ro dord fails k) :=
   crash_noTrunc s ro hro dord fails k
+
+/-- **C12 (never a missing repository)**: if the repository was indexed before the run (in simple shards or in a compound
+    shard), then at every crash point of every run — any scenario, any iteration orders, any failing renames/removals —
+    and at its end, the searcher still sees at least one shard of it.  (True of the code with the `fix:` commit
+    "Builder.Finish keeps the old shards when a rename failed"; false before, witnesses corpus/C12/w04, w06, w09.) -/
+theorem C12_never_missing (s : Scn) (hwf : s.WF = true) (hold : 1 ≤ s.nOld ∨ s.compound = true)
+    (ro : List (Path × Path)) (hro : ro.Perm (artifacts s))
+    (dord : List Path) (hd : dord.Perm (toDeleteAfter s ro)) (fails : Nat → Bool) :
+    (∀ k, Present (crashDir s ro dord fails k)) ∧ Present (finalDir s ro dord fails) :=
+  ⟨crash_present s hwf hold ro hro dord hd fails, final_present s hwf hold ro hro dord hd fails⟩
 
 /-! ## non-vacuity -/
 
